@@ -167,9 +167,13 @@ def gen_midstream(r, maxlen):
             continue
         s += f
     s = s[:maxlen + 8]
-    s = re.sub(r'[ \t\f]+(\n|$)', r'\1', s)
-    s = re.sub(r'\\(\n|$)', r'\1', s)          # no escape character directly before the end of a line
-    s = re.sub(r'\n\n+', '\n', s).lstrip('\n')  # no empty lines: the two sides may deliver runs of \par differently and the schedule counts tokens
+    while True:
+        s0 = s
+        s = re.sub(r'[ \t\f]+(\n|$)', r'\1', s)
+        s = re.sub(r'\\(\n|$)', r'\1', s)          # no escape character directly before the end of a line
+        s = re.sub(r'\n[ \t\f]*\n+', '\n', s).lstrip('\n')  # no empty lines: the two sides may deliver runs of \par differently and the schedule counts tokens
+        if s == s0:                                 # (removing one thing can expose another: repeat until nothing changes)
+            break
     chars = sorted(set(s) - {'\n', '^'}) or ['a']
     sched = []
     for _ in range(r.randint(1, 4)):
